@@ -74,7 +74,7 @@ pub(crate) fn lib_collect_requests_are_noops_while_collecting() {
 /// collect_cycles() outside a collection, empty buffer, called under ANY finalizing/dropping flags
 /// (i.e. also from a finalizer / destructor of a plain Cc::drop): executions +1 exactly, `collecting`
 /// false again afterwards, the other flags and the byte count untouched.
-//@ C11 C12 | complete | deciding | feat=full,std | fn=collect_cycles,collect | timeout=600
+//@ C11 C12 C05 | complete | deciding | feat=full,std | fn=collect_cycles,collect | timeout=600
 #[kani::proof]
 #[kani::unwind(9)]
 pub(crate) fn lib_collect_cycles_empty_buffer_counts_one_execution() {
